@@ -163,21 +163,28 @@ func three(a, b, c *big.Int) [nActors]*big.Int {
 
 var worlds = []*wdef{
 	{
-		// pending undelegations of one delegator at heights 3 and 30, of another at 5; pending reward
+		// pending undelegations of one delegator at heights 3, 9, 10 and 30, of another at 5 and 9; pending reward
 		// withdrawals at the same heights; active amounts and reward balances
 		name: "pend-3-30", class: "preloaded",
 		pre: preload{
 			active: three(olt(1000000), olt(250000), nil),
+			// (9 and 10: the height at which the decimal key gets one digit longer - "…_10_" sorts BEFORE "…_9_". Added
+			// after a seeded change - the pay-out walk of height H ending at the key prefix of height H+1 - escaped
+			// the heights 2..5, 20, 21, 30)
 			pendU: map[int64][nActors]*big.Int{
 				3:  three(olt(700), nil, nil),
 				30: three(olt(11000), nil, nil),
 				5:  three(nil, olt(50), nil),
+				9:  three(olt(40), olt(60), nil),
+				10: three(olt(70), nil, nil),
 			},
 			rb: three(olt(5), olt(3), nil),
 			pendR: map[int64][nActors]*big.Int{
 				3:  three(olt(2), nil, nil),
 				30: three(olt(9), nil, nil),
 				5:  three(nil, olt(1), nil),
+				9:  three(olt(3), olt(2), nil),
+				10: three(olt(4), nil, nil),
 			},
 		},
 		numEvents: func(tier string, depth int) int { return nDeep },
